@@ -44,7 +44,7 @@ def source_stamp():
 
 
 def regenerate():
-    from harness import facts_cli, facts_jobs, facts_manifest, facts_rtl  # noqa: F401  (register their generators)
+    from harness import facts_cli, facts_jobs, facts_manifest, facts_rtl, facts_routesel, facts_decode  # noqa: F401  (register their generators)
     stamp_file = os.path.join(common.COQ, "gen", ".stamp")
     stamp = source_stamp()
     gens = list(dict.fromkeys(GENERATORS))
@@ -62,8 +62,10 @@ def regenerate():
 # which properties' theorems are stated over which regenerated file (Props/Cxx.v imports it, or -- C12 -- the
 # descriptions the facts are read from are that property's own branch coverage): a translator that fails closed breaks
 # the tie for THESE properties only; the others neither use the file nor report it
-FACT_FILES = {"facts_cli": "CliFacts.v", "facts_rtl": "RtlFacts.v", "facts_manifest": "ManifestFacts.v", "facts_jobs": "JobsFacts.v"}
-FACT_USERS = {"facts_cli": ("C10", "C15"), "facts_rtl": ("C08", "C11", "C12"), "facts_manifest": ("C20",), "facts_jobs": ("C19",)}
+FACT_FILES = {"facts_cli": "CliFacts.v", "facts_rtl": "RtlFacts.v", "facts_manifest": "ManifestFacts.v", "facts_jobs": "JobsFacts.v",
+              "facts_routesel": "RouteSelFacts.v", "facts_decode": "DecodeFacts.v"}
+FACT_USERS = {"facts_cli": ("C10", "C15"), "facts_rtl": ("C08", "C11", "C12"), "facts_manifest": ("C20",), "facts_jobs": ("C19",),
+              "facts_routesel": ("C04",), "facts_decode": ("C01", "C02", "C03")}
 
 
 def errors_for(pid, errors):
